@@ -10,6 +10,7 @@ import Dyce.ExplodeModel
 import Dyce.RollerModel
 import Dyce.RollerSpec
 import Dyce.RollModel
+import Dyce.HeapModel
 /-! Line protocol over the executable model (import-free, so it links as a `lean_exe`).
 Every op line is `OPCODE` followed by space-separated integers; lists are length-prefixed. -/
 namespace Dyce.Driver
@@ -459,6 +460,36 @@ def opPROLL : P String := do
   let hs ← listOf hist
   pure (aggStrings ((rollPoolW hs).map fun e => (showVals e.1, e.2)))
 
+/-! ### the object population (C15) -/
+
+def heapOp : P HeapOp := do
+  let t ← tok
+  if t = 0 then do let h ← hist; pure (.newH h)
+  else if t = 1 then do let i ← nat; pure (.aliasH i)
+  else if t = 2 then do let d ← listOf nat; pure (.newP d)
+  else if t = 3 then do let s ← nat; let a ← tok; pure (.newR s a)
+  else pure .pureOrFail
+
+def showObsH (o : Option (Hist Int)) : String :=
+  match o with
+  | some h => "{" ++ ",".intercalate (h.map fun oc => toString oc.1 ++ ":" ++ toString oc.2) ++ "}"
+  | none => "?"
+
+/-- `HEAP ops…` : run the history; report every object's final content and how many times a step
+changed the content of an object that existed before it -/
+def opHEAP : P String := do
+  let ops ← listOf heapOp
+  let step (st : Heap × Nat) (op : HeapOp) : Heap × Nat :=
+    let hp' := st.1.step op
+    let changedH := ((List.range st.1.hs.length).filter fun i => !(hp'.observeH i == st.1.observeH i)).length
+    let changedP := ((List.range st.1.ps.length).filter fun j => !(hp'.observeP j == st.1.observeP j)).length
+    let changedR := ((List.range st.1.rs.length).filter fun k => !(hp'.observeR k == st.1.observeR k)).length
+    (hp', st.2 + changedH + changedP + changedR)
+  let (hp, bad) := ops.foldl step (Heap.empty, 0)
+  pure ("ok H[" ++ " ".intercalate ((List.range hp.hs.length).map fun i => showObsH (hp.observeH i)) ++ "] P["
+    ++ " ".intercalate (hp.ps.map fun d => "(" ++ ",".intercalate (d.map toString) ++ ")") ++ "] R["
+    ++ " ".intercalate (hp.rs.map fun r => toString r.1 ++ "/" ++ toString r.2) ++ "] changed=" ++ toString bad)
+
 def dispatch (op : String) : P String :=
   match op with
   | "RWC" => opRWC
@@ -483,6 +514,7 @@ def dispatch (op : String) : P String :=
   | "ROLLVALS" => opROLLVALS
   | "PICKALL" => opPICKALL
   | "PROLL" => opPROLL
+  | "HEAP" => opHEAP
   | "DENVALS" => opDENVALS
   | "ROLLRECS" => opROLLRECS
   | "EXPLODESPEC" => opEXPLODESPEC
